@@ -60,6 +60,9 @@ func classify(res, stack string, ty string, in []byte) string {
 		if inSplit && dimsWrap(ty, in) {
 			return "C02.variant-dims-overflow"
 		}
+		if inSplit && dimsDeep(ty, in) {
+			return "C02.variant-dims-depth"
+		}
 		if dimsPrealloc(stack) {
 			return "C02.variant-dims-prealloc" // zeroing gigabytes for make([]int32, n) can take longer than the timeout
 		}
@@ -73,6 +76,9 @@ func classify(res, stack string, ty string, in []byte) string {
 		case inSplit:
 			if dimsWrap(ty, in) {
 				return "C02.variant-dims-overflow"
+			}
+			if dimsDeep(ty, in) {
+				return "C02.variant-dims-depth"
 			}
 			return ""
 		case inSlice && strings.Contains(stack, "reflect.MakeSlice") && !inVariant:
@@ -88,41 +94,57 @@ func classify(res, stack string, ty string, in []byte) string {
 	return ""
 }
 
-// dimsWrap: the input is a Variant array of a fixed-width element type whose dimension list has an int32 product
-// equal to the array length although the true product differs (the defect behind C02.variant-dims-overflow).
-func dimsWrap(ty string, b []byte) bool {
+// variantDims parses a top-level Variant array of a fixed-width element type with a dimension list (every entry ≥ 1):
+// array length, number of dimensions, whether the int32 product equals the length, whether the exact product does.
+func variantDims(ty string, b []byte) (alen int32, dl int, wrappedEq, exactEq, ok bool) {
 	if ty != "variant" || len(b) < 9 || b[0]&0xc0 != 0xc0 {
-		return false
+		return
 	}
 	width := map[byte]int{1: 1, 2: 1, 3: 1, 4: 2, 5: 2, 6: 4, 7: 4, 8: 8, 9: 8, 10: 4, 11: 8, 13: 8, 19: 4}[b[0]&0x3f]
 	if width == 0 {
-		return false
+		return
 	}
-	alen := int32(uint32(b[1]) | uint32(b[2])<<8 | uint32(b[3])<<16 | uint32(b[4])<<24)
+	alen = int32(uint32(b[1]) | uint32(b[2])<<8 | uint32(b[3])<<16 | uint32(b[4])<<24)
 	p := 5
 	if alen > 0 {
 		p += int(alen) * width
 	}
 	if alen > 65535 || len(b) < p+4 {
-		return false
+		return
 	}
 	u32 := func(i int) uint32 { return uint32(b[i]) | uint32(b[i+1])<<8 | uint32(b[i+2])<<16 | uint32(b[i+3])<<24 }
-	dl := int(int32(u32(p)))
+	dl = int(int32(u32(p)))
 	p += 4
-	if dl < 2 || dl > 64 || len(b) < p+4*dl {
-		return false
+	if dl < 2 || dl > 1<<20 || len(b) < p+4*dl {
+		return
 	}
 	wrapped := int32(1)
 	exact := new(big.Int).SetInt64(1)
 	for i := 0; i < dl; i++ {
 		d := int32(u32(p + 4*i))
 		if d < 1 {
-			return false
+			return
 		}
 		wrapped *= d
-		exact.Mul(exact, big.NewInt(int64(d)))
+		if exact.BitLen() < 64 {
+			exact.Mul(exact, big.NewInt(int64(d)))
+		}
 	}
-	return wrapped == alen && exact.Cmp(big.NewInt(int64(alen))) != 0
+	return alen, dl, wrapped == alen, exact.Cmp(big.NewInt(int64(alen))) == 0, true
+}
+
+// dimsWrap: the int32 product of the dimensions equals the array length although the true product differs
+// (the defect behind the repaired C02.variant-dims-overflow).
+func dimsWrap(ty string, b []byte) bool {
+	_, _, w, e, ok := variantDims(ty, b)
+	return ok && w && !e
+}
+
+// dimsDeep: a consistent dimension list with at least three entries whose length times the array length is large:
+// split() builds one row per element on every level (C02.variant-dims-depth).
+func dimsDeep(ty string, b []byte) bool {
+	alen, dl, _, e, ok := variantDims(ty, b)
+	return ok && e && dl >= 3 && int64(dl)*int64(alen) > 1<<20
 }
 
 // dimsPrealloc: the innermost library frame is (*Variant).Decode calling runtime.makeslice directly
@@ -301,6 +323,14 @@ func splitCase(c string) (ty, hx string) {
 
 func le(v uint32) []byte { return []byte{byte(v), byte(v >> 8), byte(v >> 16), byte(v >> 24)} }
 
+func make1(n int) []uint32 {
+	out := make([]uint32, n)
+	for i := range out {
+		out[i] = 1
+	}
+	return out
+}
+
 func rep(b byte, n int) []byte {
 	out := make([]byte, n)
 	for i := range out {
@@ -368,6 +398,18 @@ func (e *env) directed() {
 	// nil arrays (length -1) with dimension lists: rejected because no product of dimensions ≥ 1 equals -1 without wrapping
 	for _, dims := range [][]uint32{{1000000, 1}, {0x7fffffff, 0x7fffffff, 0x7fffffff}, {2, 3}, {1}, {5, 1, 1}} {
 		e.run("nil-array-dims", v, codecx.Plain(codecx.VariantHeader(0xc6, 0xffffffff, nil, dims, true)))
+	}
+	// a consistent dimension list [n, 1, …, 1]: split() builds n rows on each of the k levels (quadratic)
+	{
+		n, k := 3000, 3000
+		dims := make([]uint32, k)
+		dims[0] = uint32(n)
+		for i := 1; i < k; i++ {
+			dims[i] = 1
+		}
+		e.run("risky:dims-depth", v, codecx.Plain(codecx.VariantHeader(0xc3, uint32(n), rep(7, n), dims, true)))
+		e.run("dims-depth", v, codecx.Plain(codecx.VariantHeader(0xc3, 3, rep(7, 3), []uint32{3, 1, 1, 1}, true)))
+		e.run("dims-depth", v, codecx.Plain(codecx.VariantHeader(0xc3, 24, rep(7, 24), append([]uint32{24}, make1(23)...), true)))
 	}
 	// Variant arrays: 65535 elements per 5 bytes, nested
 	e.run("amplification", v, un("98ffff000098ffff0000"))
